@@ -6,7 +6,7 @@
 id=$1; prop=$2; shift 2
 W=/tmp/seedrepo
 [ -d $W ] || git -C /repo worktree add -q --detach $W HEAD
-( cd $W && git checkout -q --detach $(git -C /repo rev-parse HEAD) && git checkout -q -- . && git apply /verif/seeded/$id/patch.diff ) || { echo "$id: patch does not apply" | tee -a /verif/seeded/results.txt; exit 8; }
+( cd $W && git checkout -q --detach $(git -C /repo rev-parse HEAD) && git checkout -q -- . && ( git apply /verif/seeded/$id/patch.diff 2>/dev/null || git apply /verif/seeded/$id/patch_on_fixed_tree.diff ) ) || { echo "$id: patch does not apply" | tee -a /verif/seeded/results.txt; exit 8; }
 cd /verif
 VERIF_REPO=$W VERIF_WORK=/verif/.work-seed VERIF_EVIDENCE=/verif/.work-seed/evidence VERIF_REPLAYS=/verif/.work-seed/replays ./check $prop "$@" > /verif/seeded/$id/check_$prop.log 2>&1; rc=$?
 ( cd $W && git checkout -q -- . )
